@@ -306,12 +306,15 @@ def serverWrite (st : Option Begin) : EdgeMsg → Option (Option Begin × List R
   | .endB => st.map (fun b => (st, [writeEnd b]))
   | .buffered b pts => some (st, writeBegin b :: pts.map (writeBatchPoint b.group) ++ [writeEnd b])
 
-def serverWriteAll : Option Begin → List EdgeMsg → Option (List Request)
-  | _, [] => some []
+def serverWriteAll : Option Begin → List EdgeMsg → Option (Option Begin × List Request)
+  | st, [] => some (st, [])
   | st, m :: ms =>
     match serverWrite st m with
     | none => none
-    | some (st', rs) => (serverWriteAll st' ms).map (rs ++ ·)
+    | some (st', rs) =>
+      match serverWriteAll st' ms with
+      | none => none
+      | some (st'', rs') => some (st'', rs ++ rs')
 
 /-! ## 5. `udf/agent/agent.go` readLoop with the echoing Handler -/
 
@@ -333,6 +336,14 @@ def agentStep (h : Peer) : Request → Peer × List Response × List Response
   | .begin b => (h, [], [.begin b])
   | .point p => (h, [], [.point p])
   | .endB e => (h, [], [.endB e])
+
+/-- The read loop over a request stream: `(peer, direct, echoed)`. -/
+def agentRun : Peer → List Request → Peer × List Response × List Response
+  | h, [] => (h, [], [])
+  | h, r :: rs =>
+    let (h', d, e) := agentStep h r
+    let (h'', ds, es) := agentRun h' rs
+    (h'', d ++ ds, e ++ es)
 
 /-! ## 6. `udf/server.go`, the reading side: `handleResponse` -/
 
@@ -411,5 +422,14 @@ def Session.send (s : Session) (m : EdgeMsg) : Option (Session × List Out) :=
   match serverWrite s.wbegin m with
   | none => none
   | some (wb, reqs) => ({ s with wbegin := wb } : Session).requests reqs
+
+/-! ## 8. Schedules -/
+
+/-- `zs` is an interleaving of `xs` and `ys` (each keeps its own order): what two goroutines writing to one
+channel, or a `select` over two channels, can produce. -/
+inductive Interleave {α : Type} : List α → List α → List α → Prop
+  | nil : Interleave [] [] []
+  | left {x : α} {xs ys zs : List α} : Interleave xs ys zs → Interleave (x :: xs) ys (x :: zs)
+  | right {y : α} {xs ys zs : List α} : Interleave xs ys zs → Interleave xs (y :: ys) (y :: zs)
 
 end Kap.C19
